@@ -134,8 +134,12 @@ class Overrides(H):
         return super().compute(spec, c)
 
 
-def run_history(prog, inputs, ch, suspend):
-    """One complete pause/answer history.  Returns (violations, info)."""
+FALSY_RESPONSES = [0, False, "", (), 0.0]
+
+
+def run_history(prog, inputs, ch, suspend, resp_mode="term"):
+    """One complete pause/answer history.  Returns (violations, info).  resp_mode 'falsy': the human's answers are falsy values
+    (a different one per output), never None."""
     from hypergraph import AsyncRunner
 
     from .. import seams
@@ -232,7 +236,11 @@ def run_history(prog, inputs, ch, suspend):
         if nid in responses:
             out.append(({"symptom": "answered-interrupt-paused-again"}, f"{nid} paused again although its response was supplied"))
             return out, None
-        responses[nid] = {o: ("resp", nid, o) for o in spec["outs"]}
+        if resp_mode == "falsy":
+            base = len(paused_seq)
+            responses[nid] = {o: FALSY_RESPONSES[(base + i) % len(FALSY_RESPONSES)] for i, o in enumerate(spec["outs"])}
+        else:
+            responses[nid] = {o: ("resp", nid, o) for o in spec["outs"]}
         for o, key in keys.items():
             ins[key] = responses[nid].get(o)
         paused_seq.append(nid)
@@ -430,17 +438,17 @@ def run_shard(shard):
         if ci % k != s:
             continue
         paused_any = False
-        for suspend, bound in ((False, None), (True, 1 if tier == "quick" else 2)):
+        for suspend, bound, rmode in ((False, None, "term"), (True, 1 if tier == "quick" else 2, "term"), (False, None, "falsy")):
             stats = {}
-            for ch, (vs, seq) in explore(lambda ch: run_history(prog, inputs, ch, suspend), bound=bound, max_execs=4000, stats=stats, free_kinds=("env",)):
+            for ch, (vs, seq) in explore(lambda ch: run_history(prog, inputs, ch, suspend, rmode), bound=bound, max_execs=4000, stats=stats, free_kinds=("env",)):
                 acc.evaluations += 1
                 acc.traces += 1
-                account_sched(acc, (family, ci, suspend), ch)
+                account_sched(acc, (family, ci, suspend, rmode), ch)
                 acc.outcomes[(family, tuple(seq) if seq is not None else None)] += 1
                 if seq:
                     paused_any = True
                 for sig, msg in vs:
-                    acc.violation(sig, {"family": family, "program": prog, "inputs": jsonable(inputs), "suspend": suspend, "choices": ch.choices}, msg, size=len(repr(prog)) + 5 * len(ch.choices))
+                    acc.violation({**sig, **({"responses": "falsy"} if rmode == "falsy" else {})}, {"family": family, "program": prog, "inputs": jsonable(inputs), "suspend": suspend, "choices": ch.choices, "resp_mode": rmode}, msg if rmode == "term" else f"[answers are falsy values] {msg}", size=len(repr(prog)) + 5 * len(ch.choices))
             if stats.get("cap_hit"):
                 acc.caps.append({"family": family, "case": ci, "cap": 4000})
         if paused_any:
@@ -467,5 +475,5 @@ def replay(rep):
         acc = Acc()
         nested_check(acc)
         return [v["message"] for v in acc.violations.values()]
-    _, (vs, seq) = run_once(lambda ch: run_history(rep["program"], rep["inputs"], ch, rep["suspend"]), rep["choices"])
+    _, (vs, seq) = run_once(lambda ch: run_history(rep["program"], rep["inputs"], ch, rep["suspend"], rep.get("resp_mode", "term")), rep["choices"])
     return [m for _, m in vs]
